@@ -47,6 +47,9 @@ def stream_env(ip):
             r = script[i](ctx) if callable(script[i]) else script[i]
             ctx.ghost.events.append(("read", r))
             return r
+        if name == "at_eof":
+            # the peer may or may not have closed its side already: environment non-determinism
+            return bool(ctx.fork(2))
         if name == "__bool__":
             return True
         return NotImplemented
